@@ -1,5 +1,6 @@
 """C12 — render errors keep their type and name the failing expression and position."""
 import os
+import re
 import shutil
 import tempfile
 
@@ -133,7 +134,9 @@ def judge(case, r):
 def chain_case(rng, d):
     """lib.pt defines a macro that raises; mid.pt loads lib; main.pt loads mid: records innermost first"""
     exc = rng.choice(['KeyError', 'Custom', 'Shouty', 'TypeError'])
-    lib = '<html>\n<div metal:define-macro="m">\n  <b>${boom(\'%s\')}</b>\n</div>\n</html>' % exc
+    # the failing expression stands far into a line of varying layout: the message shows a window of the line with a marker
+    pad = 'x' * rng.randint(0, 45) + ' ' * rng.randint(0, 3) + 'y' * rng.randint(0, 12)
+    lib = '<html>\n<div metal:define-macro="m">\n  <b class="%s">${boom(\'%s\')}</b>  <i>tail of the line</i>\n</div>\n</html>' % (pad, exc)
     mid = '<x>\n<y tal:define="lib load: lib.pt" metal:use-macro="lib.macros[\'m\']"/>\n</x>'
     main = '<main>\n\n<z tal:define="mid load: mid.pt" metal:use-macro="mid"/></main>'
     for name, body in (('lib.pt', lib), ('mid.pt', mid), ('main.pt', main)):
@@ -158,8 +161,22 @@ def run_chain(d, exc):
     try:
         PageTemplateFile(os.path.join(d, 'main.pt'))(boom=boom)
     except Exception as e:
-        return {'raised': type(e).__name__, 'is_render_error': isinstance(e, RenderError), 'records': pipeline.parse_errors(str(e))}
+        return {'raised': type(e).__name__, 'is_render_error': isinstance(e, RenderError), 'records': pipeline.parse_errors(str(e)),
+                'markers': marker_texts(str(e))}
     return {'out': True}
+
+
+SRC_RE = re.compile(r' - Expression: "(.*?)"\n - Filename:   .*?\n - Location:   \(line \d+: col \d+\)\n - Source:     (.*)\n               ( *\^+)')
+
+
+def marker_texts(text):
+    """for every record of a file template: (expression, the part of the shown source line that stands above the ^^^ marker)"""
+    out = []
+    for m in SRC_RE.finditer(text):
+        shown, marker = m.group(2), m.group(3)
+        a = len(marker) - len(marker.lstrip(' '))
+        out.append([m.group(1), shown[a:a + len(marker.strip())]])
+    return out
 
 
 def correspondence(ctx):
@@ -186,12 +203,16 @@ def oracle(ctx):
             ctx.violation(j, {'src': case['src'], 'exception': case['exc'], 'site': case['label']}, expected=case['record'], actual=r)
     d = tempfile.mkdtemp(prefix='c12_')
     try:
-        for _ in range(ctx.budget(20, 300)):
+        for _ in range(ctx.budget(150, 3000)):
             exc, expected = chain_case(ctx.rng, d)
             r = run_chain(d, exc)
             ctx.count('evaluations')
             nt += 1
-            if r.get('records') != expected or not r.get('is_render_error') or r.get('raised') != exc:
+            bad_marker = [m for m in r.get('markers', []) if m[1] != m[0]]
+            if bad_marker:
+                ctx.violation('the source marker of the message does not stand under the failing expression', {'files': 'main.pt -> mid.pt -> lib.pt',
+                              'exception': exc, 'lib': open(os.path.join(d, 'lib.pt')).read()}, expected=[m[0] for m in bad_marker], actual=bad_marker)
+            elif r.get('records') != expected or not r.get('is_render_error') or r.get('raised') != exc:
                 ctx.violation('call-site chain (macro in a loaded template): records must go from the failing expression outwards',
                               {'files': 'main.pt -> mid.pt -> lib.pt', 'exception': exc}, expected=expected, actual=r)
     finally:
